@@ -1,7 +1,7 @@
 (* C11 - bounding boxes and extrema are conservative and tight; monotone splits hold.
    Statements per coordinate (x and y are treated identically by the code). *)
 From Coq Require Import QArith Qminmax.
-From LV Require Import Base.Prelude Model.Bezier Model.LineInter Proofs.C11_Extrema Gen.Functions Proofs.Gen_Geom.
+From LV Require Import Base.Prelude Model.Bezier Model.LineInter Proofs.C11_Extrema Gen.Functions Proofs.Gen_Geom Proofs.Gen_GeomProps.
 Open Scope Q_scope.
 
 (* The square-root oracle assumed for the cubic root finder: only at the one discriminant the code
@@ -126,6 +126,31 @@ Theorem C11_quad_local_extremum_is_source : forall c,
   src_quad_local_x_extremum_t c = q_local_x_extremum_t c /\ src_quad_local_y_extremum_t c = q_local_y_extremum_t c.
 Proof. intro c. split; [exact (src_quad_local_x_extremum_t_is_model c)|exact (src_quad_local_y_extremum_t_is_model c)]. Qed.
 
+(* x / y_maximum_t, x / y_minimum_t, bounding_range_x / y and fast_bounding_range_x / y of the quadratic, regenerated from the
+   source (if-let blocks with fall-through), ARE the models; and on the generated functions: the exact box contains every
+   point of the curve and lies within the fast box *)
+Theorem C11_quad_extrema_are_source : forall c,
+  src_quad_x_maximum_t c = q_maximum_t (px (q_from c)) (px (q_ctrl c)) (px (q_to c)) /\
+  src_quad_x_minimum_t c = q_minimum_t (px (q_from c)) (px (q_ctrl c)) (px (q_to c)) /\
+  src_quad_y_maximum_t c = q_maximum_t (py (q_from c)) (py (q_ctrl c)) (py (q_to c)) /\
+  src_quad_y_minimum_t c = q_minimum_t (py (q_from c)) (py (q_ctrl c)) (py (q_to c)) /\
+  src_quad_bounding_range_x c = q_bounding_range_x c /\ src_quad_bounding_range_y c = q_bounding_range_y c /\
+  src_quad_fast_bounding_range_x c = q_fast_bounding_range (px (q_from c)) (px (q_ctrl c)) (px (q_to c)) /\
+  src_quad_fast_bounding_range_y c = q_fast_bounding_range (py (q_from c)) (py (q_ctrl c)) (py (q_to c)).
+Proof. exact src_quad_extrema_are_model. Qed.
+
+Theorem C11_src_quad_box_contains_curve : forall c t, 0 <= t -> t <= 1 ->
+  (fst (src_quad_bounding_range_x c) <= px (src_quad_sample c t) /\ px (src_quad_sample c t) <= snd (src_quad_bounding_range_x c)) /\
+  (fst (src_quad_bounding_range_y c) <= py (src_quad_sample c t) /\ py (src_quad_sample c t) <= snd (src_quad_bounding_range_y c)).
+Proof. exact src_quad_box_contains_curve. Qed.
+
+Theorem C11_src_quad_fast_box_contains_exact : forall c,
+  fst (src_quad_fast_bounding_range_x c) <= fst (src_quad_bounding_range_x c) /\
+  snd (src_quad_bounding_range_x c) <= snd (src_quad_fast_bounding_range_x c) /\
+  fst (src_quad_fast_bounding_range_y c) <= fst (src_quad_bounding_range_y c) /\
+  snd (src_quad_bounding_range_y c) <= snd (src_quad_fast_bounding_range_y c).
+Proof. exact src_quad_fast_box_contains_exact. Qed.
+
 Print Assumptions C11_quad_extremum_sound.
 Print Assumptions C11_quad_extremum_complete.
 Print Assumptions C11_quad_dcoord_is_derivative.
@@ -143,3 +168,6 @@ Print Assumptions C11_cubic_range_tight.
 Print Assumptions C11_cubic_range_contains.
 Print Assumptions C11_cubic_fast_contains.
 Print Assumptions C11_quad_local_extremum_is_source.
+Print Assumptions C11_quad_extrema_are_source.
+Print Assumptions C11_src_quad_box_contains_curve.
+Print Assumptions C11_src_quad_fast_box_contains_exact.
